@@ -91,7 +91,8 @@ def build_all(log=print):
         if rc != 0:
             raise BuildBroken("kbextract", out)
         # 3. the Lean project (model, theorems, driver)
-        rc, out = sh(["lake", "build"], cwd=LEAN)
+        props = sorted("KB.Props." + f[:-5] for f in os.listdir(os.path.join(LEAN, "KB", "Props")) if f.endswith(".lean"))
+        rc, out = sh(["lake", "build", "KB", "kbmodel"] + props, cwd=LEAN)
         lean_log = out
         lean_ok = rc == 0
         if not os.path.exists(KBMODEL) or not lean_ok:
